@@ -117,4 +117,13 @@ CLAIMED.update({
              note=_N + "fmt verbs by their meaning; the golden-ratio window offset validated against IEEE doubles for n <= 10^6.", technique="Lean 4 proof + correspondence of the printed text parsed row by row"),
 })
 
+CLAIMED.update({
+ "C22": dict(text=_T % "C22" + "for every reachable UI state (mode stack over disassembler, emulator, memory view) and every input line, uiStep is never a panic and the line is executed, answered with an error, or quits the mode; "
+             "sessions never panic by induction over scripts; parseCommand total; a hang is possible only inside a value prompt at end of input. Hypotheses named after the theorems that discharge them "
+             "(Lawful code operations: C05-C07; WF code: C08; EmuLawful.step_safe: C03). Partial: terminal size, fmt, regexp, bufio.Scanner line limit and OS behaviour at end of input are outside the model; "
+             "the thorough tier also drives the real binary under a pseudo-terminal",
+             note=_N + "regexp answers, the emulator step and the code operations are parameters replayed from the implementation by the driver.",
+             technique="Lean 4 proof (induction over scripts, composing C23 C24 C29 C30 C31 C32) + correspondence of scripted sessions, real binary under a pty in the thorough tier"),
+})
+
 NOT_YET = {}
